@@ -5,12 +5,12 @@
    Every modelled converter is [dconv image] for a per-ballot [image]; the theorems
    below hold for ANY image, hence for all of them at once, for every profile (a list
    of weighted ballots, any size, rational weights) and every output key. *)
-From Coq Require Import ZArith QArith List Bool Permutation.
+From Coq Require Import ZArith QArith Qabs List Bool Permutation.
 From VL Require Import Prelude.Sx Prelude.PyDict Prelude.GDict Model.Convert Proofs.Convert_proofs.
+From VL Require Import Model.Convert2 Proofs.Convert2_proofs Proofs.Round_proofs.
 Import ListNotations.
 Open Scope Q_scope.
 
-Notation value := (gget sx_eqb).
 
 (* converting the union of two profiles equals the sum of their conversions *)
 Theorem C13_additive : forall (B : Type) (image : B -> list (sx * Q)) (a b : list (B * Q)) (k : sx),
@@ -60,6 +60,240 @@ Example C13_example :
   = [(L [A 1; A 2], 5)].
 Proof. vm_compute. reflexivity. Qed.
 
+
+(* ===================================================================================================================
+   Second part: the converters that are not (only) accumulating folds - Model/Convert2.v.
+   Profiles given as dictionaries are united by util.add_dict_to_dict ([add_dict]: equal ballots pool their counts),
+   nested profiles either by taking the constituencies of both ([++]) or constituency by constituency ([nmerge]).
+   [coef d k] is the sum of the entries of d under key k (the entry itself when keys are distinct: coef_value).
+   =================================================================================================================== *)
+
+(* ---- every accumulating converter, profiles united as dictionaries *)
+Theorem C13_additive_merge : forall (g : sx -> list (sx * Q)) (a b : fdict) (k : sx),
+  value (dconv g (add_dict a b)) k == value (dconv g a) k + value (dconv g b) k.
+Proof. exact conv_add_dict. Qed.
+
+(* ---- VoteTotals / MergedDistributions *)
+Theorem C13_vote_totals_value : forall (n : ndict) (k : sx),
+  value (vote_totals n) k == fold_right (fun cd acc => coef sx_eqb (snd cd) k + acc) 0 n.
+Proof. exact vote_totals_value. Qed.
+
+Theorem C13_vote_totals_additive : forall (a b : ndict) (k : sx),
+  value (vote_totals (a ++ b)) k == value (vote_totals a) k + value (vote_totals b) k.
+Proof. exact vote_totals_additive. Qed.
+
+Theorem C13_vote_totals_merge : forall (n1 n2 : ndict) (k : sx),
+  value (vote_totals (nmerge n1 n2)) k == value (vote_totals n1) k + value (vote_totals n2) k.
+Proof. exact vote_totals_merge. Qed.
+
+Theorem C13_vote_totals_single : forall (c : sx) (d : fdict) (k : sx), NoDup (keys d) ->
+  value (vote_totals [(c, d)]) k == value d k.
+Proof. exact vote_totals_single. Qed.
+
+Theorem C13_vote_totals_order_free : forall (a b : ndict) (k : sx), Permutation a b ->
+  value (vote_totals a) k == value (vote_totals b) k.
+Proof. exact vote_totals_order_free. Qed.
+
+Theorem C13_vote_totals_conserves : forall n : ndict,
+  gsum (vote_totals n) == fold_right (fun cd s => gsum (snd cd) + s) 0 n.
+Proof. exact vote_totals_conserves. Qed.
+
+(* ---- ConstituencyTotals / PartyTotals *)
+Theorem C13_const_totals_union : forall a b : ndict, const_totals (a ++ b) = const_totals a ++ const_totals b.
+Proof. exact const_totals_app. Qed.
+
+Theorem C13_const_totals_merge : forall (n1 n2 : ndict) (c : sx), NoDup (keys n2) ->
+  value (const_totals (nmerge n1 n2)) c == value (const_totals n1) c + value (const_totals n2) c.
+Proof. exact const_totals_merge. Qed.
+
+Theorem C13_const_totals_single : forall (c : sx) (d : fdict),
+  const_totals [(c, d)] = [(c, dtotal d)] /\ dtotal d == gsum d.
+Proof. intros c d. split; [reflexivity|apply dtotal_gsum]. Qed.
+
+Theorem C13_const_totals_conserves : forall n : ndict, gsum (const_totals n) == gsum (vote_totals n).
+Proof. exact const_totals_conserves. Qed.
+
+(* ---- InvertedSimpleVotes: the documented law is the sign flip, count by count (no other handling in the code) *)
+Theorem C13_inv_simple_image : forall (d : fdict) (k : sx),
+  value (inv_simple d) k == - value d k /\ keys (inv_simple d) = keys d.
+Proof. intros d k. split; [apply inv_simple_value|apply inv_simple_keys]. Qed.
+
+Theorem C13_inv_simple_involutive : forall d : fdict, inv_simple (inv_simple d) = d.
+Proof. exact inv_simple_involutive. Qed.
+
+Theorem C13_inv_simple_additive : forall (a b : fdict) (k : sx), NoDup (keys b) ->
+  value (inv_simple (add_dict a b)) k == value (inv_simple a) k + value (inv_simple b) k.
+Proof. exact inv_simple_additive. Qed.
+
+Theorem C13_inv_simple_total : forall d : fdict, gsum (inv_simple d) == - gsum d.
+Proof. exact inv_simple_total. Qed.
+
+(* ---- GroupVotesByParty, IndividualToPartyResult, SelectionToDistribution *)
+Theorem C13_group_party_totals : forall (pm : list (C * Z)) (votes : list (C * Q)) (p : sx), NoDup (map fst votes) ->
+  value (const_totals (group_by_party pm votes)) p == value (dconv (img_party pm) votes) p.
+Proof. exact group_party_totals. Qed.
+
+Theorem C13_group_single : forall (pm : list (C * Z)) (c : C) (w : Q),
+  group_by_party pm [(c, w)] = match party_key pm c with Some p => [(p, [(kc c, w)])] | None => [] end.
+Proof. exact group_single. Qed.
+
+Theorem C13_party_result_additive : forall (pm : list (C * Z)) (a b : list C) (k : sx),
+  value (party_result pm (a ++ b)) k == value (party_result pm a) k + value (party_result pm b) k.
+Proof. intros pm a b k. unfold party_result. rewrite map_app. apply C13_additive. Qed.
+
+Theorem C13_sel_to_dist_image : forall (amount : Q) (elected : list sx) (c : sx),
+  value (sel_to_dist amount elected) c == if existsb (sx_eqb c) elected then amount else 0.
+Proof. exact sel_to_dist_value. Qed.
+
+(* ---- ByConstituency: constituency by constituency *)
+Theorem C13_by_constituency_union : forall (c : ccode) (n1 n2 r1 r2 : ndict),
+  run_code (KBy c) (VN n1) = COk (VN r1) -> run_code (KBy c) (VN n2) = COk (VN r2) ->
+  run_code (KBy c) (VN (n1 ++ n2)) = COk (VN (r1 ++ r2)).
+Proof. intros c n1 n2 r1 r2. exact (by_flat_app (fun d => run_code c (VF d)) n1 n2 r1 r2). Qed.
+
+Theorem C13_by_constituency_image : forall (c : ccode) (n r : ndict),
+  run_code (KBy c) (VN n) = COk (VN r) ->
+  Forall2 (fun cd co => fst cd = fst co /\ run_code c (VF (snd cd)) = COk (VF (snd co))) n r.
+Proof. intros c n r. exact (by_flat_image (fun d => run_code c (VF d)) n r). Qed.
+
+(* ---- Chain: the image is the composition; additivity is inherited from additive links *)
+Theorem C13_chain_composition : forall (l1 l2 : list ccode) (v : vdata),
+  run_code (KChain (l1 ++ l2)) v = bind (run_code (KChain l1) v) (run_code (KChain l2)).
+Proof. exact run_chain_app. Qed.
+
+Theorem C13_chain_single_and_nested : forall (c : ccode) (l1 l2 : list ccode) (v : vdata),
+  run_code (KChain [c]) v = run_code c v /\
+  run_code (KChain (KChain l1 :: l2)) v = run_code (KChain (l1 ++ l2)) v.
+Proof. intros c l1 l2 v. split; [apply run_chain_single|apply run_chain_nested]. Qed.
+
+(* two accumulating converters in a row are the accumulating converter of the composed image *)
+Theorem C13_compose : forall (B : Type) (f : B -> list (sx * Q)) (g : sx -> list (sx * Q)) (votes : list (B * Q)) (k : sx),
+  value (dconv g (dconv f votes)) k == value (dconv (compose f g) votes) k.
+Proof. intros B. exact (@conv_compose B). Qed.
+
+(* [kernels c = Some gs]: c is built from InvertedSimpleVotes, the accumulating converters whose image does not read the candidate set
+   of the profile, and Chains of those; gs are their per-ballot images *)
+Theorem C13_chain_image : forall (c : ccode) (gs : list kern) (d out : fdict) (k : sx),
+  kernels c = Some gs -> NoDup (keys d) -> run_code c (VF d) = COk (VF out) ->
+  value out k == value (dconv (compose_all gs) d) k.
+Proof. exact chain_image. Qed.
+
+Theorem C13_chain_additive : forall (c : ccode) (gs : list kern) (a b oa ob oab : fdict) (k : sx),
+  kernels c = Some gs -> NoDup (keys a) -> NoDup (keys b) ->
+  run_code c (VF a) = COk (VF oa) -> run_code c (VF b) = COk (VF ob) -> run_code c (VF (add_dict a b)) = COk (VF oab) ->
+  value oab k == value oa k + value ob k.
+Proof. exact chain_additive. Qed.
+
+(* the hypotheses are met by a real chain: ranked ballots -> approval sets -> split simple votes -> inverted *)
+Example C13_chain_example :
+  let c := KChain [KConv KRankedApproval; KChain [KConv (KApprovalSimple true); KInvSimple]] in
+  let a := [(L [A 1; A 2], 3); (L [A 2], 1)] in
+  let b := [(L [A 2; A 1], 1 # 2); (L [A 3], 2)] in
+  (exists gs, kernels c = Some gs) /\ NoDup (keys a) /\ NoDup (keys b) /\
+  run_code c (VF a) = COk (VF [(A 1, - (3 # 2)); (A 2, - (5 # 2))]) /\
+  run_code c (VF (add_dict a b)) = COk (VF [(A 1, - (7 # 4)); (A 2, - (11 # 4)); (A 3, - (2))]).
+Proof.
+  cbv zeta. split; [eexists; reflexivity|]. split; [repeat constructor; simpl; intuition discriminate|].
+  split; [repeat constructor; simpl; intuition discriminate|]. split; vm_compute; reflexivity.
+Qed.
+
+(* with RoundedVotes as a link the Chain is not additive: the hypothesis on the links is necessary *)
+Theorem C13_chain_rounded_refuted :
+  exists c a b oa ob oab k,
+    NoDup (keys a) /\ NoDup (keys b) /\
+    run_code c (VF a) = COk (VF oa) /\ run_code c (VF b) = COk (VF ob) /\ run_code c (VF (add_dict a b)) = COk (VF oab) /\
+    ~ value oab k == value oa k + value ob k.
+Proof. exact chain_rounded_not_additive. Qed.
+
+(* known finding C13-approval-split-empty: the split approval converter, alone or behind InvertedApprovalVotes, has no image for an
+   empty approval ballot - the run ends in ZeroDivisionError *)
+Theorem C13_approval_split_empty_refuted :
+  exists d, NoDup (keys d) /\ run_code (KConv (KApprovalSimple true)) (VF d) = CErr E_ZERODIV /\
+            run_code (KChain [KConv KInvApproval; KConv (KApprovalSimple true)]) (VF [(L [A 1; A 2], 2); (L [A 1], 1)]) = CErr E_ZERODIV.
+Proof. exact approval_split_empty_crashes. Qed.
+
+(* ---- RoundedVotes: exact rounding of a rational count to d decimals (round_q), mode by mode *)
+Theorem C13_rounded_image : forall (m : rmode) (d : nat) (votes : fdict) (k : sx),
+  keys (rounded_votes m d votes) = keys votes /\
+  value (rounded_votes m d votes) k == if existsb (fun kv => sx_eqb k (fst kv)) votes then round_q m d (value votes k) else 0.
+Proof. intros m d votes k. split; [apply rounded_keys|apply rounded_get]. Qed.
+
+Theorem C13_rounded_on_grid : forall (m : rmode) (d : nat) (x : Q), exists n : Z, round_q m d x == inject_Z n / pow10 d.
+Proof. exact round_q_on_grid. Qed.
+
+(* ROUND_HALF_UP / ROUND_HALF_DOWN / ROUND_HALF_EVEN: at most half a unit of the last kept decimal *)
+Theorem C13_rounded_half_error : forall (m : rmode) (d : nat) (x : Q), half_mode m = true ->
+  Qabs (round_q m d x - x) <= (1 # 2) / pow10 d.
+Proof. exact round_q_half_error. Qed.
+
+(* all eight modes: less than one unit *)
+Theorem C13_rounded_error : forall (m : rmode) (d : nat) (x : Q), Qabs (round_q m d x - x) < 1 / pow10 d.
+Proof. exact round_q_error. Qed.
+
+Theorem C13_rounded_fixpoint : forall (m : rmode) (d : nat) (x : Q) (k : Z), x == inject_Z k / pow10 d -> round_q m d x == x.
+Proof. exact round_q_fix. Qed.
+
+Theorem C13_rounded_idempotent : forall (m : rmode) (d : nat) (x : Q), round_q m d (round_q m d x) == round_q m d x.
+Proof. exact round_q_idempotent. Qed.
+
+(* the tie rules as documented by the decimal module, on a count exactly half way between k / 10^d and (k + 1) / 10^d *)
+Theorem C13_rounded_tie : forall (d : nat) (x : Q) (k : Z), 0 <= x -> x * pow10 d == inject_Z k + (1 # 2) ->
+  round_q RHalfUp d x == inject_Z (k + 1) / pow10 d /\
+  round_q RHalfDown d x == inject_Z k / pow10 d /\
+  round_q RHalfEven d x == inject_Z (if Z.even k then k else k + 1) / pow10 d /\
+  round_q RUp d x == inject_Z (k + 1) / pow10 d /\
+  round_q RDown d x == inject_Z k / pow10 d /\
+  round_q RCeiling d x == inject_Z (k + 1) / pow10 d /\
+  round_q RFloor d x == inject_Z k / pow10 d /\
+  round_q R05Up d x == inject_Z (if (k mod 5 =? 0)%Z then k + 1 else k) / pow10 d.
+Proof. exact round_q_tie. Qed.
+
+(* 0.125 and 0.135 to two decimals (k = 12 even, k = 13 odd), and their mirror images *)
+Example C13_rounded_tie_example :
+  (1 # 8) * pow10 2 == inject_Z 12 + (1 # 2) /\
+  map (fun m => Qred (round_q m 2 (1 # 8))) [RHalfUp; RHalfDown; RHalfEven; RUp; RDown; RCeiling; RFloor; R05Up]
+    = [13 # 100; 3 # 25; 3 # 25; 13 # 100; 3 # 25; 13 # 100; 3 # 25; 3 # 25] /\
+  map (fun m => Qred (round_q m 2 (27 # 200))) [RHalfUp; RHalfDown; RHalfEven]
+    = [7 # 50; 13 # 100; 7 # 50] /\
+  map (fun m => Qred (round_q m 2 (- (1 # 8)))) [RHalfUp; RHalfDown; RHalfEven; RUp; RDown; RCeiling; RFloor; R05Up]
+    = [- (13 # 100); - (3 # 25); - (3 # 25); - (13 # 100); - (3 # 25); - (3 # 25); - (13 # 100); - (3 # 25)].
+Proof. vm_compute. repeat split; reflexivity. Qed.
+
+(* negative counts round as the mirror image (ceiling and floor trade places): with C13_rounded_tie, ties of negative counts *)
+Theorem C13_rounded_sign : forall (m : rmode) (d : nat) (x : Q), round_q m d (- x) == - round_q (mirror m) d x.
+Proof. exact round_q_opp. Qed.
+
+Theorem C13_rounded_monotone : forall (m : rmode) (d : nat) (x y : Q), x <= y -> round_q m d x <= round_q m d y.
+Proof. exact round_q_monotone. Qed.
+
+Theorem C13_rounded_compat : forall (m : rmode) (d : nat) (x y : Q), x == y -> round_q m d x == round_q m d y.
+Proof. exact round_q_compat. Qed.
+
+(* rounding is not additive (which is why it is no link of C13_chain_additive) *)
+Theorem C13_rounded_additive_refuted :
+  exists m d a b k,
+    ~ value (rounded_votes m d (add_dict a b)) k == value (rounded_votes m d a) k + value (rounded_votes m d b) k.
+Proof. exact rounded_not_additive. Qed.
+
+(* the library computes Decimal(numerator) / Decimal(denominator) at 28 significant digits before it rounds (round_code, via = true for
+   Fraction counts): wherever that quotient is exact - every count that has at most 28 significant digits - the result is the exact
+   rounding, or InvalidOperation when it would need more than 28 digits *)
+Theorem C13_rounded_code_exact : forall (prec : nat) (via : bool) (m : rmode) (d : nat) (x : Q),
+  sig_round prec x == x \/ via = false ->
+  round_code prec via m d x = RInvalid \/ exists r, round_code prec via m d x = ROk r /\ r == round_q m d x.
+Proof. exact round_code_exact. Qed.
+
+Example C13_rounded_code_hypothesis :
+  Qeq_bool (sig_round 28 (123456789 # 1000)) (123456789 # 1000) = true /\
+  Qeq_bool (sig_round 28 (1 # 3)) (1 # 3) = false /\
+  round_code 28 true RHalfEven 2 (1 # 3) = ROk (33 # 100).
+Proof. vm_compute. repeat split; reflexivity. Qed.
+
+(* outside that domain the count is rounded twice and the result can be the wrong neighbour *)
+Theorem C13_rounded_double_rounding_refuted :
+  exists x, round_code 28 true RHalfDown 0 x = ROk 0 /\ round_q RHalfDown 0 x == 1 /\ (1 # 2) < x.
+Proof. exact round_code_double_rounding. Qed.
+
 Print Assumptions C13_additive.
 Print Assumptions C13_single_ballot.
 Print Assumptions C13_value.
@@ -67,3 +301,44 @@ Print Assumptions C13_order_free.
 Print Assumptions C13_weight_conserved.
 Print Assumptions C13_one_item_images.
 Print Assumptions C13_condorcet_additive.
+Print Assumptions C13_additive_merge.
+Print Assumptions C13_vote_totals_value.
+Print Assumptions C13_vote_totals_additive.
+Print Assumptions C13_vote_totals_merge.
+Print Assumptions C13_vote_totals_single.
+Print Assumptions C13_vote_totals_order_free.
+Print Assumptions C13_vote_totals_conserves.
+Print Assumptions C13_const_totals_union.
+Print Assumptions C13_const_totals_merge.
+Print Assumptions C13_const_totals_single.
+Print Assumptions C13_const_totals_conserves.
+Print Assumptions C13_inv_simple_image.
+Print Assumptions C13_inv_simple_involutive.
+Print Assumptions C13_inv_simple_additive.
+Print Assumptions C13_inv_simple_total.
+Print Assumptions C13_group_party_totals.
+Print Assumptions C13_group_single.
+Print Assumptions C13_party_result_additive.
+Print Assumptions C13_sel_to_dist_image.
+Print Assumptions C13_by_constituency_union.
+Print Assumptions C13_by_constituency_image.
+Print Assumptions C13_chain_composition.
+Print Assumptions C13_chain_single_and_nested.
+Print Assumptions C13_compose.
+Print Assumptions C13_chain_image.
+Print Assumptions C13_chain_additive.
+Print Assumptions C13_chain_rounded_refuted.
+Print Assumptions C13_approval_split_empty_refuted.
+Print Assumptions C13_rounded_image.
+Print Assumptions C13_rounded_on_grid.
+Print Assumptions C13_rounded_half_error.
+Print Assumptions C13_rounded_error.
+Print Assumptions C13_rounded_fixpoint.
+Print Assumptions C13_rounded_idempotent.
+Print Assumptions C13_rounded_tie.
+Print Assumptions C13_rounded_sign.
+Print Assumptions C13_rounded_monotone.
+Print Assumptions C13_rounded_compat.
+Print Assumptions C13_rounded_additive_refuted.
+Print Assumptions C13_rounded_code_exact.
+Print Assumptions C13_rounded_double_rounding_refuted.
